@@ -1,1 +1,99 @@
-From TenpyV Require Import Base.Prelude.
+(* Property C01: block-sparse tensor algebra agrees with dense numpy algebra.
+   Only statements; every proof is `exact <lemma from Proofs/>`.
+   Model: Model/Tensor.v (storage of np_conserved.Array, to_ndarray = assignment of the stored blocks in storage order,
+   dense_sum = sum of the stored blocks), Model/TensorOps.v (operations as the code performs them on _data/_qdata),
+   Model/Labels.v (label functions).  All statements are for every rank, every number and size of charge blocks,
+   every number of charges and every number of stored blocks.
+   NOT proved here (checked by the numpy oracle of harness/c01.py only): tensordot values, inner, trace, combine/split_legs,
+   indexing, concatenation, scale_axis, permutations; the nested case of _conj_leg_label. *)
+From TenpyV Require Import Base.Prelude Model.Charge Model.Tensor Model.TensorOps Model.Labels.
+From TenpyV Require Import Proofs.ChargeP Proofs.TensorP Proofs.TensorP2 Proofs.LabelsP.
+From Coq Require Import Ascii.
+Open Scope Z_scope.
+
+(* np.transpose(D, p)[i_p(0), i_p(1), ...] = D[i_0, i_1, ...]  (gather p i = [i_p(0); i_p(1); ...]) *)
+Theorem T01_transpose : forall p a idx, Permutation p (seq 0 (rank a)) ->
+  to_ndarray (transpose p a) (gather 0%nat p idx) = to_ndarray a idx /\
+  dense_sum (transpose p a) (gather 0%nat p idx) = dense_sum a idx.
+Proof. exact transpose_dense. Qed.
+
+Theorem T01_conj : forall ci a idx,
+  to_ndarray (conj ci a) idx = cconj (to_ndarray a idx) /\ dense_sum (conj ci a) idx = cconj (dense_sum a idx).
+Proof. exact conj_dense. Qed.
+
+Theorem T01_scale : forall s a idx,
+  to_ndarray (scale s a) idx = cmul s (to_ndarray a idx) /\ dense_sum (scale s a) idx = cmul s (dense_sum a idx).
+Proof. exact scale_dense. Qed.
+
+(* with at most one stored block per combination of charge blocks (C02), the assignment semantics of to_ndarray
+   is the sum of the embedded blocks: blocks of different _qdata rows never overlap *)
+Theorem T01_blocks_disjoint : forall a idx, NoDup (rows a) -> rows_shape a -> to_ndarray a idx = dense_sum a idx.
+Proof. exact to_ndarray_sum. Qed.
+
+(* a + alpha * b  (iadd_prefactor_other = sorted merge of ibinary_blockwise).  THIS is where C01 needs C02:
+   the merge trusts the cached claim _qdata_sorted of both operands (hypotheses WF). *)
+Theorem T01_add : forall ci alpha a b idx, WF ci a -> WF ci b -> legs a = legs b -> qtot a = qtot b ->
+  to_ndarray (add alpha a b) idx = cadd (to_ndarray a idx) (cmul alpha (to_ndarray b idx)).
+Proof. exact add_dense. Qed.
+
+(* ... on the level of sums of blocks the merge is correct for every order of the block lists *)
+Theorem T01_add_blocksum : forall alpha a b idx, legs a = legs b ->
+  dense_sum (add alpha a b) idx = cadd (dense_sum a idx) (cmul alpha (dense_sum b idx)).
+Proof. exact add_dense_sum. Qed.
+
+(* ... and with a false claim the result of the real algorithm is wrong (one block is lost in to_ndarray) *)
+Theorem T01_add_needs_truthful_claim :
+  (to_ndarray (add (1, 0) bad_claim_example good_claim_example) [0%nat] = (7, 0)) /\
+  (cadd (to_ndarray bad_claim_example [0%nat]) (cmul (1, 0) (to_ndarray good_claim_example [0%nat])) = (14, 0)).
+Proof. exact bad_claim_breaks_add. Qed.
+
+(* outer: c[i, j] = a[i] * b[j], proved for the sum of the stored blocks.
+   Missing for the full statement about to_ndarray: that the rows of the grid of block pairs are pairwise distinct
+   (then T01_blocks_disjoint applies). *)
+Theorem T01_outer_partial : forall ci a b ia ib, rows_shape a -> length ia = rank a ->
+  dense_sum (outer ci a b) (ia ++ ib) = cmul (dense_sum a ia) (dense_sum b ib).
+Proof. exact outer_dense_sum. Qed.
+
+(* labels: _split_leg_label(_combine_leg_labels(ls), len(ls)) = ls with '?#' -> None, nested parentheses of any depth *)
+Theorem T01_split_combine_labels : forall ls, ls <> [] -> Forall wf_label ls ->
+  split_label (combine_labels ls) (length ls) = Some (map strip_q ls).
+Proof. exact split_combine. Qed.
+
+(* _conj_leg_label: 'a' -> 'a*' -> 'a' for atomic labels of any length.
+   Missing: labels with parentheses (str.replace('**', '') on nested labels); checked by correspondence only. *)
+Theorem T01_conj_label_involutive_partial : forall a, a <> [] -> forallb atom_char a = true ->
+  conj_label a = (a ++ ["*"%char])%list /\ conj_label (a ++ ["*"%char]) = a.
+Proof. exact conj_label_atom. Qed.
+
+(* non-vacuity: a well-formed array with two charges (U(1) x Z_2), unsorted duplicated charge blocks, nonzero qtotal *)
+Definition ex_leg1 : leg := mkLeg [1%nat; 2%nat; 0%nat] [[1; 1]; [0; 0]; [1; 1]] 1.
+Definition ex_leg2 : leg := mkLeg [2%nat; 1%nat] [[0; 1]; [1; 0]] (-1).
+Definition ex_arr : arr :=
+  mkArr [ex_leg1; ex_leg2] [1; 0]
+        [([0%nat; 0%nat], fun i => (Z.of_nat (nth 1 i 0%nat) + 1, 2)); ([2%nat; 0%nat], fun i => (3, 0))] true.
+Example T01_example_wf : WF [1; 2] ex_arr.
+Proof.
+  constructor.
+  - reflexivity.
+  - intros r [<-|[<-|[]]]; reflexivity.
+  - repeat constructor; cbn; intuition discriminate.
+  - intros r [<-|[<-|[]]] j Hj; destruct j as [|[|j]]; cbn in Hj; try lia; vm_compute; reflexivity.
+  - intros _. reflexivity.
+Qed.
+Example T01_example_values : map (to_ndarray ex_arr) [[0%nat; 1%nat]; [1%nat; 2%nat]; [0%nat; 2%nat]] = [(2, 2); (0, 0); (0, 0)].
+Proof. vm_compute. reflexivity. Qed.
+Example T01_example_labels :
+  split_label (combine_labels [["a"%char]; ["("; "b"; "."; "?"; "1"; ")"]%char; ["?"; "2"]%char]) 3 =
+  Some [Some ["a"%char]; Some ["("; "b"; "."; "?"; "1"; ")"]%char; None].
+Proof. vm_compute. reflexivity. Qed.
+
+Print Assumptions T01_transpose.
+Print Assumptions T01_conj.
+Print Assumptions T01_scale.
+Print Assumptions T01_blocks_disjoint.
+Print Assumptions T01_add.
+Print Assumptions T01_add_blocksum.
+Print Assumptions T01_add_needs_truthful_claim.
+Print Assumptions T01_outer_partial.
+Print Assumptions T01_split_combine_labels.
+Print Assumptions T01_conj_label_involutive_partial.
